@@ -332,6 +332,15 @@ Theorem C07_engine_ctor :
 Proof. exact eng_ctor_spec. Qed.
 Print Assumptions C07_engine_ctor.
 
+(** induced containment implies monomorphic containment, at the entry points: whenever a call with check_type "induced" answers True,
+    the same call with any other check_type answers True *)
+Theorem C07_induced_implies_mono :
+  forall vf2b, vf2b_contract vf2b ->
+  forall fn o ct child parent, gwf child -> gwf parent -> entry_ok fn o -> ct <> 0%N ->
+    sub_entry vf2b fn (set_ctype o 0%N) child parent = RB true -> sub_entry vf2b fn (set_ctype o ct) child parent = RB true.
+Proof. exact entry_induced_implies_mono. Qed.
+Print Assumptions C07_induced_implies_mono.
+
 (** (2, helpers) invariance under relabelling and symmetry beyond the engine: every boolean subgraph entry point (raw options) gives
     the same answer when the child or the parent is renamed by any r injective on its nodes ... *)
 Theorem C07_entry_relabel_invariant :
@@ -378,6 +387,32 @@ Theorem C07_iso_maps_consistent :
      fst (get_mappings vf2b enum e i (gnth gs i) j (gnth gs j) c') <> []).
 Proof. exact iso_maps_consistent. Qed.
 Print Assumptions C07_iso_maps_consistent.
+
+(** get_mappings returns something EXACTLY when the pattern is contained (max_mappings <> 0): the converse of (4) *)
+Theorem C07_embeddings_iff :
+  forall vf2b enum, vf2b_contract vf2b -> enum_contract enum ->
+  forall gs e hi pi c, cache_inv gs c -> gwf (gnth gs hi) -> gwf (gnth gs pi) -> e_mm e <> Some 0%N ->
+    (fst (get_mappings vf2b enum e hi (gnth gs hi) pi (gnth gs pi) c) <> [] <->
+     contained true (nm_eng e) (em_eng e) (gnth gs hi) (gnth gs pi)).
+Proof. exact embeddings_iff. Qed.
+Print Assumptions C07_embeddings_iff.
+
+(** isomorphic never means "is a subgraph of": graphs with different numbers of nodes are not isomorphic, for any engine *)
+Theorem C07_iso_unequal_orders :
+  forall vf2b, vf2b_contract vf2b ->
+  forall gs e i j c, cache_inv gs c -> gwf (gnth gs i) -> gwf (gnth gs j) ->
+    n_nodes (gnth gs i) <> n_nodes (gnth gs j) -> fst (isomorphic vf2b e i (gnth gs i) j (gnth gs j) c) = false.
+Proof. exact iso_unequal_orders. Qed.
+Print Assumptions C07_iso_unequal_orders.
+
+(** argument guards: an engine method handed a non-Graph argument raises TypeError (code 1) before anything else and leaves the cache
+    alone; find_graph_isomorphism on two different networkx graph classes answers None (any VF2) *)
+Theorem C07_argument_guards :
+  forall vf2b enum gs es c,
+  (forall mp e i j, (i = None \/ j = None) -> step vf2b enum gs es (QObj mp e i j) c = (L [tN 99; tN 1], c)) /\
+  (forall t1 t2 i j ud fa a b d, t1 <> t2 -> step vf2b enum gs es (QFgiT t1 t2 i j ud fa a b d) c = (tbool false, c)).
+Proof. exact argument_guards. Qed.
+Print Assumptions C07_argument_guards.
 
 (** isomorphic is a preorder on graphs for every engine and all cache states: reflexive, and transitive (with C07_symmetric: an
     equivalence on graphs whose hydrogen counts are equal or absent) *)
